@@ -49,8 +49,16 @@ Definition g_cancel (s : gst) (id : Z) : gst :=
       mkG slots watched (g_max s) (remw id (g_live s)) (g_next s)
   end.
 
-Inductive gop := GReg (sig : Z) | GCancel (id : Z).
-Definition g_op (s : gst) (o : gop) : gst := match o with GReg sg => g_reg s sg | GCancel id => g_cancel s id end.
+(* GRun: tickit_run -- it watches SIGINT (2) for its duration and cancels that watch when the loop
+   has returned: a signums[] slot is taken and freed again, which is how slot reuse comes about in
+   every program that uses tickit_run *)
+Inductive gop := GReg (sig : Z) | GCancel (id : Z) | GRun.
+Definition g_op (s : gst) (o : gop) : gst :=
+  match o with
+  | GReg sg => g_reg s sg
+  | GCancel id => g_cancel s id
+  | GRun => g_cancel (g_reg s 2) (g_next s)
+  end.
 Definition g_run (ops : list gop) : gst := fold_left g_op ops gst0.
 
 Definition NSIG : Z := 65.
@@ -223,14 +231,15 @@ Proof.
         -- apply negb_true_iff. apply Z.eqb_neq. intros X. subst sg. apply memz_iff in H2. congruence.
 Qed.
 
-Definition gop_ok (o : gop) : Prop := match o with GReg sg => sg <> 0 | GCancel _ => True end.
+Definition gop_ok (o : gop) : Prop := match o with GReg sg => sg <> 0 | _ => True end.
 
 Lemma GI_run : forall ops, Forall gop_ok ops -> GI (g_run ops).
 Proof.
   intros ops. unfold g_run.
   assert (G : forall ops s, Forall gop_ok ops -> GI s -> GI (fold_left g_op ops s)).
   { induction ops0 as [|o r IH]; intros s Ho H; [exact H|]. inversion Ho as [|? ? Ho1 Hor]; subst. cbn [fold_left].
-    apply IH; [exact Hor|]. destruct o as [sg|id]; [apply GI_reg; assumption|apply GI_cancel; exact H]. }
+    apply IH; [exact Hor|]. destruct o as [sg|id|]; [apply GI_reg; assumption|apply GI_cancel; exact H|].
+    apply GI_cancel. apply GI_reg; [exact H|discriminate]. }
   intros Ho. apply G; [exact Ho|]. apply mkGI; cbn.
   - intros w [].
   - intros i sg H. destruct i; discriminate.
@@ -262,9 +271,9 @@ Proof.
   apply andb_true_iff. split; apply memz_iff; [exact Hp|]. apply watched_spec; assumption.
 Qed.
 
-(* the seeded bound: SIGWINCH (28) in a fresh slot, a watch that is cancelled, then SIGSYS (31)
-   into the freed slot: watched, recorded, and outside the walk *)
-Definition wmax_ops : list gop := [GReg 28; GReg 2; GCancel 1; GReg 31].
+(* the seeded bound: SIGWINCH (28) in a fresh slot (tickit_build), one tickit_run, then SIGSYS (31)
+   into the slot tickit_run's SIGINT watch has freed: watched, recorded, and outside the walk *)
+Definition wmax_ops : list gop := [GReg 28; GRun; GReg 31].
 
 Theorem max_signum_refuted :
   In 31 (g_watched (g_run wmax_ops)) /\ g_max (g_run wmax_ops) = 28 /\
